@@ -144,8 +144,9 @@ class Merger(object):
         toffset = 0
         for i, (subdir, sc, st) in enumerate(
                 zip(self.subdirs, spike_clusters_l, spike_templates_l)):
-            n_clu = np.max(sc) + 1
-            n_tmp = np.max(st) + 1
+            n_clu = int(np.max(sc)) + 1
+            # NOTE: templates without spikes still take a row in the merged templates.npy.
+            n_tmp = max(int(np.max(st)) + 1, np.load(str(subdir / 'templates.npy'), mmap_mode='r').shape[0])
             sc += coffset
             st += toffset
             self.cluster_offsets.append(coffset)
